@@ -10,4 +10,7 @@ open Strengths.Gen.PyNumeric
 limited number of digits (the model computes its values exactly and its texts through `repr`) -/
 theorem kinetics_full_precision : fullPrecision inv_kinetics = true := by decide +kernel
 
+/-- `kinetics.py` takes no maximum / minimum / absolute value and swallows no exception: nothing it computes is clamped -/
+theorem kinetics_no_clamping : clamp_kinetics = [] := by decide +kernel
+
 end Strengths.PyNumeric
